@@ -4,6 +4,7 @@
    the case carries the payload as given at creation). *)
 Require Import WS.Base.Bytes WS.Base.Tape WS.gen.Consts WS.Spec.Frame WS.Spec.WriterSpec.
 Require Import WS.Model.Writer WS.Model.Prepared WS.Cases.WriterCase.
+Require WS.Cases.C09w.
 
 Record pcase := { pc_cfgs : list wcfg; pc_ops : list (nat * cop) }.
 
@@ -49,11 +50,21 @@ Fixpoint ops_of (i:nat) (l:list ((nat * cop) * N)) : list (aop * N) :=
   | ((j, o), r) :: rest => if Nat.eqb i j then (aop_of o, r) :: ops_of i rest else ops_of i rest
   end.
 
+(* per connection: the ops addressed to it, as ops of the writer case language, with their results *)
+Fixpoint cops_of (i:nat) (l:list ((nat * cop) * N)) : list (cop * N) :=
+  match l with
+  | [] => []
+  | ((j, o), r) :: rest => if Nat.eqb i j then (o, r) :: cops_of i rest else cops_of i rest
+  end.
+
 Definition conn_ok (k:pcase) (o:pobs) (i:nat) (c:wcfg) (es:list tev) : option N :=
   let '(fs, t) := parse_frames (wire_of es) in
   match t with
   | TEnd =>
       if negb (wf_wire (negb (w_server c)) (w_negotiated c) fs) then Some 61
+      else if negb (C09w.close_is_last fs) then Some 164      (* a prepared close obeys the rules of a direct one: it is the last frame ... *)
+      else if match C09w.after_close_ok false None (cops_of i (combine (pc_ops k) (po_res o))) with Some _ => true | None => false end
+      then C09w.after_close_ok false None (cops_of i (combine (pc_ops k) (po_res o)))   (* ... and later sends fail with ErrCloseSent *)
       else match wire_events (map fst fs) with
            | None => Some 62
            | Some evs =>
